@@ -276,6 +276,16 @@ def main():
     outp = Path(a.out)
     if not outp.exists() or outp.read_text() != text:
         outp.write_text(text)
+    # ---- rs2lean: regenerate lean/RactorModel/Generated/*.lean (translated pure functions) ----
+    # A function that cannot be translated is NOT emitted (its equivalence theorem in Props/ then
+    # fails to elaborate); the per-function report is read by bin/check.
+    sys.path.insert(0, str(Path(__file__).resolve().parent))
+    import rs2lean
+    gen = outp.parent / "Generated"
+    rep = rs2lean.generate(repo, gen, gen / "report.json")
+    for r in rep:
+        if not r["ok"]:
+            print(f"rs2lean: TRANSLATION FAILED {r['function']}: {r['error']}", file=sys.stderr)
     return 0
 
 
